@@ -66,15 +66,30 @@ def check_start(ctx, prog):
     ov["parse_options"] = S.o_parse_options
     I = new_interp(prog, overrides=ov)
     entries = A.entry_states(prog, I, F, ("RUN", "EXITED", "CHILD"), combos="min")
-    res = I.run(F, entries)
+    evs = []
+    for st0 in entries:
+        try:
+            res = I.run(F, [st0])
+        except AnalysisBroken:
+            # the run did not end in a quick rejection but went on into the start path until the state cap: if it made a system
+            # call on the way, that is already a definite violation of "nothing is touched"; otherwise there is no verdict
+            part = [e for e in I.events if e[0] in R.OS_EVENTS]
+            if not part:
+                raise
+            ctx.ob("C14.L1", "reproc_start [%s]" % R.shape_of(st0.mon.get("shape")), "starting a handle that is not in the not-started state "
+                   "is rejected with the invalid-argument error and nothing is touched", False,
+                   {"system_calls_made": sorted({site_of(e[1], e[2]) for e in part})[:4], "note": "analysis stopped at the state cap after these calls"},
+                   nontrivial=True)
+            evs += part
+            continue
+        for st, rv in res.exits:
+            lab = st.mon.get("shape")
+            sh1, why = A.classify(prog, I, st)
+            ctx.ob("C14.L1", "reproc_start [%s]" % R.shape_of(lab), "starting a handle that is not in the not-started state is rejected "
+                   "with the invalid-argument error and nothing is touched", rv == fs(EINVAL) and sh1 == R.shape_of(lab),
+                   {"returns": show(rv), "handle": A.fields(st)}, nontrivial=True)
+        evs += R.ev_of(res, R.OS_EVENTS)
     ctx.stats("E-ABS", I.stats)
-    for st, rv in res.exits:
-        lab = st.mon.get("shape")
-        sh1, why = A.classify(prog, I, st)
-        ctx.ob("C14.L1", "reproc_start [%s]" % R.shape_of(lab), "starting a handle that is not in the not-started state is rejected "
-               "with the invalid-argument error and nothing is touched", rv == fs(EINVAL) and sh1 == R.shape_of(lab),
-               {"returns": show(rv), "handle": A.fields(st)}, nontrivial=True)
-    evs = R.ev_of(res, R.OS_EVENTS)
     ctx.ob("C14.L1s", "reproc_start [started]", "no system call is made when start is rejected", not evs, None, nontrivial=True)
     rn, Fn, In = R.null_handle(ctx, prog, "reproc_start")
     derefs = [e for e in rn.events if e[0] == "null-deref"]
